@@ -34,6 +34,9 @@ def fn_jobs(what, tier, seed, n_q, n_t, shards_q=4, shards_t=16, extra=None):
     return jobs
 
 
+INTREE = {"name": "intree_swaps", "kind": "intree", "args": [], "module": "WpFn"}
+
+
 COV = {"name": "MC_Whirlpool_cov", "module": "MC_Whirlpool", "cfg": "MC_Whirlpool_cov.cfg", "timeout": 600, "workers": 1}
 
 
@@ -86,6 +89,7 @@ def C02(tier, seed):
                               "and on every swap step recorded in random histories")
     p["models"] = [mc("MC_SwapStep", tier, "MC_SwapStep")]
     p["drivers"] += fn_jobs("steps", tier, seed, 15000, 200000)
+    p["drivers"].append(dict(INTREE))    # every swap step the repository's own tests execute
     return p
 
 
@@ -165,6 +169,7 @@ def C14(tier, seed):
     for tk in ("spl", "t22"):
         drivers += hist_jobs(f"hist_af_{tk}_", seed, 4 if tier == "quick" else 8, 5 if tier == "quick" else 40, 200 if tier == "quick" else 300, tk, ["--adaptive", "1"])
     drivers += matrix_jobs("matrix_", tier, seed, "0", "0", 0, 0, shards_q=1, shards_t=1)
+    drivers.append(dict(INTREE))     # the adaptive-fee swaps of the repository's own tests
     return {"active": ["C14"], "drivers": drivers, "models": [mc("MC_AdaptiveFee", tier, "MC_AdaptiveFee")],
             "must_exercise": {"swap": 50, "swap_v2": 50},
             "explanation": "adaptive-fee pools with random valid constants: reference update (filter / decay / one-hour reset), accumulator = min(volRef + |ref - group|*10^4, max), "
@@ -296,6 +301,7 @@ def C06(tier, seed):
     for s_ in range(shards):   # two-hop swaps: each leg's fee is booked on its own pool like a single swap's
         p["drivers"].append({"name": f"twohop_{s_}", "args": ["twohop", "--seed", str(seed * 100 + 70 + s_), "--worlds", str(worlds), "--attempts", str(attempts)]})
     p["must_exercise"].update({"two_hop_swap": 10, "two_hop_swap_v2": 10})
+    p["drivers"].append(dict(INTREE))    # fee formula / split / budget of every swap the repository's own tests execute
     return p
 
 
